@@ -399,7 +399,8 @@ def param2ast(param):
     :return: AST node for assignment
     :rtype: ```Union[AnnAssign, Assign]```
     """
-    name, _param = param
+    # a copy: an inferred type is not written into the caller's description
+    name, _param = param[0], dict(param[1])
     del param
 
     def get_default_val(val):
